@@ -83,6 +83,11 @@ pub fn for_case(case: &Case) -> Box<dyn Oracle> {
     match case.property.as_str() {
         "C03" => Box::new(ReuseOracle::new(case, Modes { justify: true, ..Default::default() })),
         "C04" => Box::new(ReuseOracle::new(case, Modes { justify: true, untracked_rule: true, ..Default::default() })),
+        // colliding identity hashes (hash_mod = 1): salsa identifies a struct by (hash, disambiguator),
+        // so a struct with another identity legitimately takes over the slot (new generation, memos
+        // cleared) without a discard event; the event-based identity oracle is off there and the
+        // value oracle + identity-field read-back decide
+        "C06" if case.knobs.hash_mod == 1 => Box::new(ReuseOracle::new(case, Modes { justify: true, ..Default::default() })),
         "C06" => Box::new(ReuseOracle::new(case, Modes { justify: true, ts_identity: true, ..Default::default() })),
         "C05" => Box::new(ReuseOracle::new(case, Modes { justify: true, lru: true, ..Default::default() })),
         "C12" | "C13" | "C14" | "C15" => Box::new(CycleOracle::default()),
@@ -144,6 +149,12 @@ pub fn accumulated_step(e: &mut E1, n: usize, arg: u32) {
             pk if aborted => {
                 let _ = pk;
                 info.expected_panic = true;
+            }
+            PK::Msg(m) if e.last_fault_cb == Some(Cb::Event) && (m.contains("cannot delete read-locked id") || m.contains("cannot delete write-locked id")) => {
+                // recorded finding (C22), seen through an accumulated() request: an event-callback
+                // panic during stale-output deletion left the old memo with already-deleted outputs
+                e.out.viol("stale_output_discard_interrupted", step, format!("accumulated({n}): after a panic in the event callback during stale-output deletion the retry fails: {m}"));
+                e.stop_run = true;
             }
             pk => e.out.viol("unexpected_panic", step, format!("accumulated({n}) panicked: {pk:?}")),
         },
